@@ -178,7 +178,11 @@ theorem deEventsAt_topClean : ∀ (q : List QEv) (d : Nat), TopClean d (deEvents
   | .err :: t, d => by simp [deEventsAt, TopClean]
   | .comment :: t, d => by simp only [deEventsAt]; exact deEventsAt_topClean t d
   | .decl :: t, d => by simp only [deEventsAt]; exact deEventsAt_topClean t d
-  | .pi :: t, d => by simp only [deEventsAt]; exact deEventsAt_topClean t d
+  | .pi c :: t, d => by
+    simp only [deEventsAt]
+    split
+    · exact deEventsAt_topClean t d
+    · simp [TopClean]
   | .doctype :: t, d => by simp only [deEventsAt]; exact deEventsAt_topClean t d
 
 theorem depthAfter_append : ∀ (a b : List Ev) (d : Nat), depthAfter d (a ++ b) = depthAfter (depthAfter d a) b
